@@ -123,11 +123,12 @@ def check_snapshot(cid):
     return tuple((name, snapshot.snap(cid.check_map[name], ignore=CHECK_IGNORE)) for name in cid.check_names)
 
 
-def run_reader(cid, source, mode="yield", limit=None, close=True):
-    """One run on the real Reader. -> observation dict (JSON-able apart from 'snapshot')."""
+def run_reader(cid, source, mode="yield", limit=None, close=True, reader=None):
+    """One run on the real Reader (or on an already constructed one). -> observation dict (JSON-able apart from 'snapshot')."""
     m = harness.modules()
     errors = m["errors"]
-    reader = m["validio"].Reader(cid, source, on_error=mode, validate_until=limit)
+    if reader is None:
+        reader = m["validio"].Reader(cid, source, on_error=mode, validate_until=limit)
     events = []
     raised = None
     try:
